@@ -103,12 +103,46 @@ def flatten(t: T, ops: Tuple[str, ...], bool_op: str) -> List[T]:
     return [t]
 
 
+def neg(t: T) -> T:
+    """structural negation: not(not x) = x, comparisons are inverted, everything else is wrapped in `~`"""
+    s = strip_cast(t)
+    if s.kind == "un" and s.args[0] in ("~", "not"):
+        return s.args[1]
+    if s.kind == "bin" and s.args[0] == "-" and s.args[1].kind == "const" and s.args[1].args[0] == 1:
+        return s.args[2]
+    if s.kind == "const" and isinstance(s.args[0], bool):
+        return mk("const", not s.args[0])
+    return mk("un", "~", s)
+
+
 def disjuncts(t: T) -> List[T]:
-    return flatten(t, ("|",), "or")
+    """flattened disjunction; De Morgan: not(a & b) contributes not a, not b"""
+    out = []
+    for d in flatten(t, ("|",), "or"):
+        n = negand(d)
+        if n is not None:
+            cs = flatten(n, ("&",), "and")
+            if len(cs) > 1:
+                for c in cs:
+                    out += disjuncts(neg(c))
+                continue
+        out.append(d)
+    return out
 
 
 def conjuncts(t: T) -> List[T]:
-    return flatten(t, ("&",), "and")
+    """flattened conjunction; De Morgan: not(a | b) contributes not a, not b"""
+    out = []
+    for c in flatten(t, ("&",), "and"):
+        n = negand(c)
+        if n is not None:
+            ds = flatten(n, ("|",), "or")
+            if len(ds) > 1:
+                for d in ds:
+                    out += conjuncts(neg(d))
+                continue
+        out.append(c)
+    return out
 
 
 def is_negation(a: T, b: T) -> bool:
